@@ -398,8 +398,12 @@ class CursorAwareWindow(BaseWindow, ContextManager["CursorAwareWindow"]):
         while True:
             self.in_get_cursor_diff = True
             self.another_sigwinch = False
-            cursor_dy += self._get_cursor_vertical_diff_once()
-            self.in_get_cursor_diff = False
+            try:
+                cursor_dy += self._get_cursor_vertical_diff_once()
+            finally:
+                # also when the query raises (e.g. ValueError for extra bytes
+                # without a callback): later calls must query again
+                self.in_get_cursor_diff = False
             if not self.another_sigwinch:
                 return cursor_dy
 
